@@ -45,7 +45,7 @@ pub struct Hist {
 pub fn hist() -> impl Strategy<Value = Hist> {
     let spec = prop_oneof![
         3 => c14::pair().prop_map(|p| ProgSpec::Gen(Box::new(p))),
-        6 => (0u8..10, 0u8..4, any::<u16>()).prop_map(|(f, r, v)| ProgSpec::Shared(f, r, v)),
+        6 => (0u8..11, 0u8..4, any::<u16>()).prop_map(|(f, r, v)| ProgSpec::Shared(f, r, v)),
         1 => c11::raw_tree().prop_map(|mut t| { t.missing = None; t.main_symlink = false; ProgSpec::Tree(t) }),
     ];
     let op = prop_oneof![
@@ -65,7 +65,7 @@ pub enum Prog {
 /// The same shared name gets a different meaning in every role.
 pub fn shared_program(name: &str, family: u8, role: u8, v: u16) -> String {
     let v = v as u32 % 60000;
-    match (family % 10, role % 4) {
+    match (family % 11, role % 4) {
         (0, 0) => format!(".equ {} = {}\n.dw {}", name, v, name),
         (0, 1) => format!(".equ {} = {}\nldi r16, low({})", name.to_uppercase(), v + 1, name),
         (0, _) => format!(".dw {}", name),
@@ -104,6 +104,13 @@ pub fn shared_program(name: &str, family: u8, role: u8, v: u16) -> String {
         (9, 1) => format!(".equ {} = 1\n.equ {} = 2\n.equ {} = 3\n.dw {}", name, name.to_uppercase(), name.to_lowercase(), name),
         (9, 2) => format!(".def {} = r16\n.def {} = r17\n.def {} = r18\nmov {}, r1", name, name.to_uppercase(), name.to_lowercase(), name),
         (9, _) => format!(".define {}\n.define {}\n.ifdef {}\n.dw 1\n.endif\n.ifdef {}\n.dw 2\n.endif\n.ifdef {}\n.dw 3\n.endif", name, name.to_uppercase(), name, name.to_uppercase(), name.to_lowercase()),
+        // names that are near keys of the tool's tables (longer, shorter, other letter case): whatever a
+        // lookup makes of them, it makes the same of them in every process (hash-map order varies per process)
+        (10, r) => {
+            const NEAR: &[&str] = &["ATmega88PA", "ATmega168A", "ATmega168PA", "ATtiny2313A", "ATmega", "AT90S", "ATtiny", "atmega8", "ATMEGA8", "ATmega3250P", "ATtiny441", "ATmega16U4", "ATmega328PB", "AT90CAN128A", "ATtiny4"];
+            let d = NEAR[(v as usize + r as usize * 4) % NEAR.len()];
+            format!(".device {}\njmp 0\nmul r16, r17\n.dseg\n{}: .byte 1\n.cseg\n.dw {}\n.org 600\nnop", d, name, name)
+        }
         (_, _) => "nop".to_string(),
     }
 }
